@@ -81,7 +81,13 @@ def rand_steps(rng, text, ids, adj_links):
             k = rng.randrange(len(w))
             w[k] = (w[k][0], fl[w[k][1]])
         return w
-    return [(rng.choice(ids), rng.choice("+-")) for _ in range(rng.randint(1, 6))]
+    w = [(rng.choice(ids), rng.choice("+-")) for _ in range(rng.randint(1, 6))]
+    if rng.random() < 0.06:
+        # a step over a node the graph does not have (outside the property's quantifier: compared with the model only - the last
+        # or only step gives an empty sequence, an earlier one is a KeyError in the tool and `none` in the model)
+        k = rng.choice([len(w) - 1, len(w) - 1, rng.randrange(len(w))])
+        w[k] = ("zz_not_a_node", w[k][1])
+    return w
 
 
 def c14(ck, tmp):
@@ -121,18 +127,20 @@ def c14(ck, tmp):
         cli = None
         if it % 5 == 0:
             pf = os.path.join(tmp, "paths.txt")
-            gen.write_text(pf, "".join(s + "\n" for s in strs))
+            keep = [i for i, s in enumerate(strs) if "zz_not_a_node" not in s]     # the file mode is run on steps over nodes of the graph
+            fstrs = [strs[i] for i in keep]
+            gen.write_text(pf, "".join(s + "\n" for s in fstrs))
             out = os.path.join(tmp, "fp.out")
             fasta = rng.random() < 0.5
             try:
-                tool("find_path", gfa_path=gfa, input_path=pf, output=out, fasta=fasta)
+                tool("find_path", allow_stdout=True, gfa_path=gfa, input_path=pf, output=out, fasta=fasta)
                 cli = open(out).read().split("\n")
                 if cli and cli[-1] == "":
                     cli.pop()
                 if fasta:
                     names, cli = cli[0::2], cli[1::2]
-                    if names != [">seq_" + s for s in strs]:
-                        ck.violation("find_path --fasta record names are not seq_<path> in input order", {"gfa": text, "paths": strs, "names": names})
+                    if names != [">seq_" + s for s in fstrs]:
+                        ck.violation("find_path --fasta record names are not seq_<path> in input order", {"gfa": text, "paths": fstrs, "names": names})
             except BaseException as e:  # noqa
                 cli = "crash:" + type(e).__name__
         rep = ck.driver([{"op": "walk.extract", "gfa": tok, "paths": [[[o == "+", n] for n, o in p] for p in allp], "impl": impl}])[0]["results"]
@@ -141,10 +149,14 @@ def c14(ck, tmp):
             ck.case({"gfa": text, "path": s}, nsteps >= 2 and r["valid"], sample={"gfa": text.splitlines(), "path": s, "impl": im} if nsteps >= 3 and r["is_walk"] else None)
             ck.count("steps:%d" % min(nsteps, 4))
             ck.count("walk" if r["is_walk"] else "non-walk")
+            replay = {"gfa": text, "path": s, "impl": im, "expected": r["expected"], "model": r["model"]}
             if not r["valid"]:
                 ck.count("invalid")
+                if "zz_not_a_node" in s:
+                    ck.count("unknown-node:model-only")
+                    if im != r["model"]:
+                        ck.disagreement("extract_path over a node the graph does not have differs from the model (outside the property's quantifier)", replay)
                 continue
-            replay = {"gfa": text, "path": s, "impl": im, "expected": r["expected"], "model": r["model"]}
             if not r["spec_on_impl"]:
                 ck.violation("extract_path(%s) = %r, expected %r" % (s, im, r["expected"]), replay)
                 continue
@@ -161,8 +173,8 @@ def c14(ck, tmp):
                 ck.violation("reversed walk inconsistent: %s -> %r, %s -> %r" % (strs[k], a, strs[k + len(paths)], b), {"gfa": text, "paths": [strs[k], strs[k + len(paths)]], "impl": [a, b]})
         if cli is not None:
             ck.count("cli-file-mode")
-            if cli != [x if x is not None else "<crash>" for x in impl]:
-                ck.violation("find_path with a path file: output records differ from one extract_path per line, in order", {"gfa": text, "paths": strs, "cli": cli, "lib": impl})
+            if cli != [impl[i] if impl[i] is not None else "<crash>" for i in keep]:
+                ck.violation("find_path with a path file: output records differ from one extract_path per line, in order", {"gfa": text, "paths": fstrs, "cli": cli, "lib": [impl[i] for i in keep]})
         os.remove(gfa)
 
 
